@@ -54,7 +54,7 @@ def configs(ctx):
     src += ew + [w for w in w3[::(3 if quick else 1)] if w not in ew]
     for w in src:
         cfg = dict(w)
-        if w["tag"].startswith(("ACC/", "EW4/")):
+        if w["tag"].startswith(("ACC/", "EW4/", "EW3/flat:")):
             cfg["extents"] = w["extents"][:1]
         else:
             cfg["extents"] = shrink(w, max_cells)
